@@ -147,6 +147,22 @@ def _tors(rec):
             amap[(ri + 1, nm)] = k
             k += 1
     rs = np.random.RandomState(len(rec["res"]) * 7 + k)
+    if (len(rec["res"]) + k) % 2:
+        # the same topology reached through a history: a decoy atom in front and one renamed atom, every named-torsion function
+        # evaluated on that, then the topology edited in place back to the intended one (tables keyed by atom index or name must follow)
+        first = next(iter(top.residues))
+        top.insert_atom("XX", E.get_by_symbol("C"), first, index=0)
+        victim = [a for a in top.atoms if a.name in ("CA", "CB", "N")][-1]
+        keep = victim.name
+        victim.name = "QQ"
+        t0 = md.Trajectory(rs.rand(1, k + 1, 3).astype(np.float32), top)
+        for f in (md.compute_phi, md.compute_psi, md.compute_omega, md.compute_chi1, md.compute_chi2, md.compute_chi3, md.compute_chi4, md.compute_chi5):
+            try:
+                f(t0)
+            except Exception:  # noqa
+                pass
+        victim.name = keep
+        top.delete_atom_by_index(0)
     t = md.Trajectory(rs.rand(2, k, 3).astype(np.float32), top)
     probs = []
 
